@@ -92,24 +92,36 @@ func pbC09(m pbMsg, expCurrent []byte) {
 	verifReach("end")
 }
 
-// pbUnknown builds one unknown field (a field number the corpus schemas never define) with a symbolic wire
-// type among the four supported ones and a symbolic payload.
-func pbUnknown(i int) []byte {
+// pbUnknown builds one unknown field with a symbolic wire type among the four supported ones and a symbolic
+// payload. The first unknown field (i == 1) takes any field number in [1, 2^29-1] that the message does not
+// define (all key sizes, e.g. 16 and 2048), the others a number in [100, 1000].
+func pbUnknown(i int, defined ...int) []byte {
 	num := nondetIntN("unum", i)
-	verifAssume(num >= 100)
-	verifAssume(num <= 1000) // 2-byte keys; key sizes are C01/C02's subject
+	if i == 1 {
+		verifAssume(num >= 1)
+		verifAssume(num <= 536870911)
+		for _, d := range defined {
+			verifAssume(num != d)
+		}
+	} else {
+		verifAssume(num >= 100)
+		verifAssume(num <= 1000)
+	}
 	wt := nondetIntN("uwt", i)
 	verifAssume(wt == 0 || wt == 1 || wt == 2 || wt == 5)
+	if i != 1 && verifTier() == 0 {
+		verifAssume(wt == 0 || wt == 2) // quick: the second unknown field is a varint or length-delimited one
+	}
 	b := make([]byte, 0, 32)
 	switch verifConcretize(wt) {
 	case 0:
 		v := nondetU64N("uv", i)
-		verifAssume(v < 1<<14)
+		verifAssume(v < 1<<7)
 		b = protowire.AppendVarint(protowire.AppendTag(b, protowire.Number(num), protowire.VarintType), v)
 	case 1:
 		b = protowire.AppendFixed64(protowire.AppendTag(b, protowire.Number(num), protowire.Fixed64Type), nondetU64N("uv", i))
 	case 2:
-		pl := nondetBytesN("up", i, 2)
+		pl := nondetBytesN("up", i, 1)
 		pl = pl[:verifConcretize(len(pl))]
 		b = protowire.AppendBytes(protowire.AppendTag(b, protowire.Number(num), protowire.BytesType), pl)
 	default:
